@@ -5,11 +5,15 @@ import argparse
 
 def main():
     # always test the working tree of /repo
-    os.environ["PYTHONPATH"] = "/repo" + (
+    # (XV_REPO lets the tooling under tools/ point the same checks at a
+    # scratch worktree carrying a seeded change; the registered commands do
+    # not set it and so test /repo itself)
+    repo = os.environ.get("XV_REPO", "/repo")
+    os.environ["PYTHONPATH"] = repo + (
         ":" + os.environ["PYTHONPATH"] if os.environ.get("PYTHONPATH") else ""
     )
-    if "/repo" not in sys.path:
-        sys.path.insert(0, "/repo")
+    if repo not in sys.path:
+        sys.path.insert(0, repo)
     os.environ.setdefault("PYTHONDONTWRITEBYTECODE", "1")
     sys.dont_write_bytecode = True
     os.environ.setdefault("PYTHONHASHSEED", "0")
